@@ -53,6 +53,7 @@ func runC02(c *core.Ctx) {
 	c02R8(c, "C02.R8")
 	c02R9(c, "C02.R9")
 	jsonTargetRule(c, "C02.R10", "service/link")
+	counterTransitions(c, "C02.R11")
 	// shared with C01 (reported under their C01 ids): an acknowledged subscription stays in the
 	// trie until removed (pruning only of empty leaves, count bookkeeping, one critical section)
 	// and is found by the matcher
@@ -532,5 +533,149 @@ func c02R9(c *core.Ctx, rule string) {
 				c.Fail(rule, fnName(f)+":calls Conn."+obj.Name(), in.Pos(), "broker.Conn."+obj.Name()+" moves the subscription counter outside the CanSubscribe/CanUnsubscribe protocol and had no production caller on the tree the rules were confirmed against")
 			}
 		})
+	}
+}
+
+// counterTransitions: the counters report exactly the first and the last holder. Increment
+// returns true iff the counter is 1 after `Counter++` (first); IncrementOnce leaves an
+// already-held filter at its count and returns whether the counter was 0 (and then makes it
+// non-zero); Decrement returns true only on the path that removes the entry, taken when the
+// decremented counter is <= 0. The trie insert/removal and the cluster announcements hang on
+// these booleans.
+func counterTransitions(c *core.Ctx, rule string) {
+	c.Rule(rule, "Counters: Increment = Counter++ then Counter == 1; IncrementOnce = (Counter == 0) and only then Counter++; Decrement = Counter-- then remove and return true iff Counter <= 0, false otherwise", 3)
+	isCounterField := func(v ssa.Value) bool {
+		_, ok := eng.LoadOfField(v, "Counter")
+		return ok
+	}
+	counterStores := func(f *ssa.Function) []*ssa.Store {
+		var out []*ssa.Store
+		eng.Instrs(f, func(in ssa.Instruction) {
+			if st, ok := in.(*ssa.Store); ok {
+				if fa, ok := st.Addr.(*ssa.FieldAddr); ok {
+					if _, fl, _, ok := eng.FieldOf(fa); ok && fl == "Counter" {
+						out = append(out, st)
+					}
+				}
+			}
+		})
+		return out
+	}
+	plusMinus := func(st *ssa.Store, op token.Token) bool {
+		bo, ok := st.Val.(*ssa.BinOp)
+		if !ok || bo.Op != op {
+			return false
+		}
+		k, isC := eng.ConstInt(bo.Y)
+		return isC && k == 1 && isCounterField(bo.X)
+	}
+	if f := fn(c, rule, "internal/message", "Counters", "Increment"); f != nil {
+		sts := counterStores(f)
+		ok := len(sts) == 1 && plusMinus(sts[0], token.ADD)
+		if ok {
+			ok = false
+			for _, rv := range eng.ResultValues(f, 0) {
+				if eq, isB := rv.(*ssa.BinOp); isB && eq.Op == token.EQL && isCounterField(eq.X) {
+					if k, isC := eng.ConstInt(eq.Y); isC && k == 1 && eng.Dominates(sts[0], eq) {
+						ok = true
+					}
+				}
+			}
+		}
+		c.Check(ok, rule, fnName(f)+":first iff counter becomes 1", f.Pos(), "Counter++ then Counter == 1", "Increment does not return `Counter == 1` after `Counter++`: the first subscription of a peer is not announced to the trie, or every one is")
+	}
+	if f := fn(c, rule, "internal/message", "Counters", "IncrementOnce"); f != nil {
+		sts := counterStores(f)
+		ok := len(sts) == 1 && plusMinus(sts[0], token.ADD)
+		if ok {
+			zero := eng.EqPred("Counter == 0", true, func(x, y ssa.Value) bool {
+				k, isC := eng.ConstInt(y)
+				return isC && k == 0 && isCounterField(x)
+			})
+			g := eng.Guarded(sts[0], zero)
+			ok = g.Guarded && g.Edges > 0
+			if !ok {
+				// `first = Counter == 0; if first {` with first a named result (spilled to a local
+				// in a function with defer): the test reads the local back
+				spilled := eng.Pred{Name: "first (= Counter == 0)", Match: func(a eng.Atom) (bool, bool) {
+					if a.Op != token.ILLEGAL {
+						return false, false
+					}
+					if r := unspill(a.V); r != nil {
+						if eq, isB := r.(*ssa.BinOp); isB && eq.Op == token.EQL && isCounterField(eq.X) {
+							if k, isC := eng.ConstInt(eq.Y); isC && k == 0 {
+								return true, true
+							}
+						}
+					}
+					return false, false
+				}}
+				g2 := eng.Guarded(sts[0], spilled)
+				ok = g2.Guarded && g2.Edges > 0
+			}
+			for _, rv := range eng.ResultValues(f, 0) {
+				eq, isB := rv.(*ssa.BinOp)
+				if !isB || eq.Op != token.EQL || !isCounterField(eq.X) {
+					ok = false
+					continue
+				}
+				if k, isC := eng.ConstInt(eq.Y); !isC || k != 0 {
+					ok = false
+				}
+			}
+		}
+		c.Check(ok, rule, fnName(f)+":first iff counter was 0", f.Pos(), "returns Counter == 0 and increments only then", "IncrementOnce is not `first = Counter == 0; if first { Counter++ }`: a repeated SUBSCRIBE of a held filter is counted again (one UNSUBSCRIBE then no longer removes it) or a new one is refused")
+	}
+	if f := fn(c, rule, "internal/message", "Counters", "Decrement"); f != nil {
+		sts := counterStores(f)
+		ok := len(sts) == 1 && plusMinus(sts[0], token.SUB)
+		if ok {
+			// the test of the decremented counter: Counter <= 0 (or < 1)
+			var cmp *ssa.BinOp
+			eng.Instrs(f, func(in ssa.Instruction) {
+				bo, isB := in.(*ssa.BinOp)
+				if !isB || !isCounterField(bo.X) || !eng.Dominates(sts[0], bo) {
+					return
+				}
+				k, isC := eng.ConstInt(bo.Y)
+				if isC && ((bo.Op == token.LEQ && k == 0) || (bo.Op == token.LSS && k == 1)) {
+					cmp = bo
+				}
+			})
+			if cmp == nil {
+				c.Fail(rule, fnName(f)+":last iff counter reaches 0", f.Pos(), "Decrement no longer tests `Counter <= 0` after the decrement")
+				return
+			}
+			gone := eng.ValuePred("Counter <= 0", cmp, true)
+			eng.Instrs(f, func(in ssa.Instruction) {
+				ret, isRet := in.(*ssa.Return)
+				if !isRet {
+					return
+				}
+				if ret.Block() == f.Recover {
+					return // the panic path re-reads the named result
+				}
+				b, isC := constBoolOf(returnedValue(ret, 0))
+				if !isC {
+					ok = false
+					return
+				}
+				if b {
+					if g := eng.Guarded(ret, gone); !(g.Guarded && g.Edges > 0) {
+						ok = false
+					}
+				}
+			})
+			ok2, _ := eng.MustFollow(f, []eng.Pred{gone}, func(i ssa.Instruction) bool {
+				ret, isRet := i.(*ssa.Return)
+				if !isRet {
+					return false
+				}
+				b, isC := constBoolOf(returnedValue(ret, 0))
+				return isC && b
+			})
+			ok = ok && ok2 && eng.HasLicensingEdge(f, gone)
+		}
+		c.Check(ok, rule, fnName(f)+":last iff counter reaches 0", f.Pos(), "Counter-- then true exactly when Counter <= 0", "Decrement does not return true exactly when the decremented counter is <= 0: the last unsubscribe is not reported (the filter stays in the trie) or an earlier one is (it is removed while still held)")
 	}
 }
